@@ -39,6 +39,19 @@ def generate(tier, seed):
                 if k == 1 or len(cases) % 5 == 0:
                     cases.append(case("engc", sp, adapter_M(lines), "w", steps))
                     dist["cached_enforcer"] = dist.get("cached_enforcer", 0) + 1
+    # a grouping rule SHORTER than the role definition: it is stored (model and adapter) and then the link update fails, so
+    # the call returns an error - the policy changed, and the change is notified like any other (a replica folding the
+    # notifications must end up with the primary's rules)
+    dist["malformed_grouping_rule"] = 0
+    for bad in (A("g", "g", ["bob"]), AM("g", "g", [["carl"], g_rules()[3]]), AM("g", "g", [g_rules()[3], ["carl"]])):
+        for pre in ([], ["EN:0", "EN:1"], [A("g", "g", g_rules()[2])]):
+            for o2 in (None, R("g", "g", ["bob"]), A("p", "p", pr0[3]), "SV", bad):
+                steps = list(obs)
+                for t in pre + [bad] + ([o2] if o2 else []):
+                    steps += [t] + obs
+                for kind in ("eng", "engc"):
+                    cases.append(case(kind, sp, adapter_M(lines), "w", steps))
+                    dist["malformed_grouping_rule"] += 1
     for _ in range(60 if tier == "quick" else 15000):
         n = rnd.choice([5, 15, 40])
         steps = list(obs)
